@@ -21,12 +21,14 @@ def alphabet(client, sids=(1,), push=False, extra=()):
             A.append(('send_data', sid, end))
             A.append(('DATA', sid, end))
         A += [('end_stream', sid), ('reset', sid), ('RST', sid), ('wu', sid), ('WU', sid),
-              ('CONT', sid), ('ALTSVC', sid, False), ('altsvc', sid, False), ('ack', sid),
+              ('WU', sid, 'over'), ('CONT', sid), ('ALTSVC', sid, False), ('altsvc', sid, False),
+              ('ack', sid),
               ('PRIORITY', sid), ('prioritize', sid), ('lfcw', sid), ('rfcw', sid)]
     if push:
         A += [('push', 1, 2), ('PP', 1, 2), ('push', 2, 4), ('PP', 2, 4)]
     A += [('open_counts',), ('close',), ('GOAWAY',), ('PING', False), ('PING', True), ('ping',),
-          ('wu', 0), ('WU', 0), ('settings',), ('SETTINGS', False), ('altsvc', None, True),
+          ('wu', 0), ('WU', 0), ('WU', 0, 'over'), ('settings',), ('SETTINGS', False),
+          ('altsvc', None, True),
           ('ALTSVC', 0, True), ('UNKNOWN', 0), ('UNKNOWN', 1)]
     A += list(extra)
     return A
@@ -180,6 +182,9 @@ def standard_shards(tier, seed, judge, alpha_filter=None, novalidate=False, extr
     for client in (True, False):
         for sl in slices(tier, seed, client, novalidate=novalidate):
             alpha = alphabet(client, sids=sl['sids'], push=sl['push'])
+            if sl['tag'] in ('one', 'upgrade', 'novalidate'):
+                # a first push from every one-stream state (step only, not catalogue-building)
+                alpha = alpha + [('push', 1, 2), ('PP', 1, 2)]
             if extra_ops:
                 alpha = alpha + [o for o in extra_ops(client, sl['sids']) if o not in alpha]
             if alpha_filter:
